@@ -17,7 +17,8 @@ VERIF = os.path.dirname(os.path.dirname(os.path.abspath(__file__)))
 REPO = os.environ.get("VERIF_REPO", "/repo")
 COQ = os.path.join(VERIF, "coq")
 OUT = os.path.join(VERIF, "out")
-BIN = os.path.join(OUT, "bin", "vharness")
+EVID = os.environ.get("VERIF_EVIDENCE_DIR", os.path.join(VERIF, "evidence"))
+BIN = os.path.join(OUT, "bin", "vharness" + ("" if os.path.realpath(REPO) == "/repo" else "-alt"))
 COQ_DIRS = ["base", "gen", "A", "B", "C", "corr", "props"]
 QFLAGS = sum((["-Q", os.path.join(COQ, d), "Verif"] for d in COQ_DIRS), [])
 WFLAGS = ["-w", "-notation-overridden,-deprecated-hint-without-locality,-deprecated-syntactic-definition"]
@@ -108,7 +109,15 @@ def build_harness():
     src = os.path.join(VERIF, "harness")
     shutil.copyfile(os.path.join(REPO, "go.sum"), os.path.join(src, "go.sum"))
     os.makedirs(os.path.dirname(BIN), exist_ok=True)
-    rc, out = run(["go", "build", "-tags", "verif", "-o", BIN, "."], cwd=src, env=GOENV, timeout=1200)
+    cmd = ["go", "build", "-tags", "verif", "-o", BIN]
+    if os.path.realpath(REPO) != "/repo":
+        # testing against a scratch copy of the repository: same module file, other replace target
+        alt = os.path.join(src, "go.alt.mod")
+        with open(alt, "w") as f:
+            f.write(open(os.path.join(src, "go.mod")).read().replace("=> /repo", "=> " + os.path.realpath(REPO)))
+        shutil.copyfile(os.path.join(REPO, "go.sum"), os.path.join(src, "go.alt.sum"))
+        cmd += ["-modfile", alt]
+    rc, out = run(cmd + ["."], cwd=src, env=GOENV, timeout=1200)
     return rc == 0, out
 
 
@@ -181,8 +190,8 @@ def eval_shards(outdir, timeout_each=1800):
 
 
 def write_evidence(pid, ev):
-    os.makedirs(os.path.join(VERIF, "evidence"), exist_ok=True)
-    p = os.path.join(VERIF, "evidence", pid + ".json")
+    os.makedirs(EVID, exist_ok=True)
+    p = os.path.join(EVID, pid + ".json")
     tmp = p + ".tmp%d" % os.getpid()
     with open(tmp, "w") as f:
         json.dump(ev, f, indent=1, sort_keys=True)
@@ -257,7 +266,7 @@ def main():
         tier = "quick"
     seed = int(os.environ.get("VERIF_SEED", "1") or "1")
     n = cfg["n_" + tier]
-    outdir = os.path.join(OUT, pid, "%s-%d" % (tier, seed))
+    outdir = os.path.join(OUT, pid, "%s-%d%s" % (tier, seed, "" if os.path.realpath(REPO) == "/repo" else "-alt"))
     os.makedirs(outdir, exist_ok=True)
     known = load_known()
     broken = []      # (kind, name, detail)
@@ -334,6 +343,24 @@ def main():
         for l in open(ip):
             r = json.loads(l)
             impl_recs[r["id"]] = r
+    # a disagreement whose model reason code belongs to a recorded finding (e.g. the picker
+    # relation rejecting the pick of finding F11) is that finding, not a broken correspondence
+    corr_known = {}
+    if corr_mismatch:
+        keep = []
+        for i in corr_mismatch:
+            codes = [t - 100000 for t in results[i][1] if t >= 100000]
+            hit = None
+            for kf in known:
+                if kf.get("status") == "known" and pid in kf.get("properties", [kf.get("property")]) \
+                        and codes and all(c in kf.get("corr_codes", []) for c in codes):
+                    hit = kf
+                    break
+            if hit:
+                corr_known.setdefault(hit["id"], []).append(i)
+            else:
+                keep.append(i)
+        corr_mismatch = keep
     if corr_mismatch:
         first = corr_mismatch[0]
         broken.append(("correspondence", "%s.%s disagrees with the implementation on %d case(s)" % (
@@ -376,9 +403,10 @@ def main():
     # --- 5. decide ---
     violations = 0
     lines = []
-    for fid, fl in sorted(kfails.items()):
+    for fid in sorted(set(kfails) | set(corr_known)):
         kf = [x for x in known if x["id"] == fid][0]
-        lines.append("KNOWN-FINDING: property=%s %s [%s, %d occurrence(s) this run]" % (pid, kf["text"], fid, len(fl)))
+        lines.append("KNOWN-FINDING: property=%s %s [%s, %d occurrence(s) this run]" % (
+            pid, kf["text"], fid, len(kfails.get(fid, [])) + len(corr_known.get(fid, []))))
     # known findings are always announced on the tree where they still reproduce (the harness
     # replays every witness); if a listed witness no longer fails nothing is printed for it.
     if unknown:
@@ -417,7 +445,7 @@ def main():
         "traces_validated_against_impl": stats.get("cases", 0) if cfg.get("cases_are_traces") else 0,
         "input_distribution": stats.get("distribution", {}),
         "model_branch_tags": tag_hist,
-        "known_findings_seen": sorted(kfails.keys()),
+        "known_findings_seen": sorted(set(kfails) | set(corr_known)),
         "broken": [dict(kind=b[0], name=b[1]) for b in broken],
         "extra": stats.get("extra", {}),
         "search_oracle_evaluations": searched,
@@ -431,7 +459,7 @@ def main():
         print(l)
     print("%s %s: %d/%d obligations, %d corr cases (%d agree), %d oracle evals, %d known finding(s), %.1fs" % (
         pid, tier, discharged, obligations, cov["correspondence_cases"], cov["correspondence_cases_agreeing"],
-        cov["oracle_evaluations"], len(kfails), wall))
+        cov["oracle_evaluations"], len(set(kfails) | set(corr_known)), wall))
     sys.exit(1 if violations else 0)
 
 
